@@ -379,3 +379,60 @@ Proof.
     + destruct (interval_unit _) as [iu|]; [|discriminate].
       intros Hq. assert (n = digits_value (d :: ds)) by congruence. subst n. assumption.
 Qed.
+(* ================= tails that begin with a non-letter ================= *)
+
+Lemma drop_ws_snoc l c : is_ws c = false -> exists l', drop_ws (l ++ [c]) = l' ++ [c].
+Proof.
+  intros Hc. induction l as [|x l IH]; cbn.
+  - exists []. now rewrite Hc.
+  - destruct (is_ws x); [exact IH|]. exists (x :: l). reflexivity.
+Qed.
+
+Lemma trim_hd c rest : is_ws c = false -> exists t, trim (c :: rest) = c :: t.
+Proof.
+  intros Hc. unfold trim. rewrite (drop_ws_id (c :: rest)) by exact Hc.
+  cbn [rev]. destruct (drop_ws_snoc (rev rest) c Hc) as (l' & ->).
+  exists (rev l'). rewrite rev_app_distr. reflexivity.
+Qed.
+
+Lemma nonletter_spells_nothing c rest lit :
+  is_ws c = false -> ~ (97 <= lower c <= 122) -> letters lit -> ~ spells (trim (c :: rest)) lit.
+Proof.
+  intros Hw Hn [_ Hl] Hs. destruct (trim_hd c rest Hw) as (t & E). rewrite E in Hs.
+  unfold spells in Hs. cbn [map] in Hs. subst lit. inversion Hl; subst. contradiction.
+Qed.
+
+(* digits followed by a character that is neither a digit, white space nor an ASCII
+   letter: rejected whatever follows (fractions "1.5kb" / "1,5kb", signs, symbols) *)
+Theorem size_str_rejects_nonletter_tail ds c rest :
+  all_digits ds -> is_digit c = false -> is_ws c = false -> ~ (97 <= lower c <= 122) ->
+  parse_size_str (ds ++ c :: rest) = None.
+Proof.
+  intros Hd Hc Hw Hn. apply size_str_rejects_unknown_unit; [exact Hd|discriminate|exact Hc|].
+  intros lit m Hin. apply nonletter_spells_nothing; [exact Hw|exact Hn|].
+  exact (size_units_letters _ _ Hin).
+Qed.
+
+Theorem interval_str_rejects_nonletter_tail ds c rest :
+  all_digits ds -> is_digit c = false -> is_ws c = false -> ~ (97 <= lower c <= 122) ->
+  parse_interval_str (ds ++ c :: rest) = None.
+Proof.
+  intros Hd Hc Hw Hn. apply interval_str_rejects_unknown_unit; [exact Hd|discriminate|exact Hc|].
+  intros lit m Hin. apply nonletter_spells_nothing; [exact Hw|exact Hn|].
+  exact (interval_units_letters _ _ Hin).
+Qed.
+
+(* fractional numbers "<digits>.<anything>" and negative numbers "-<anything>" *)
+Theorem rejects_fraction ds rest :
+  all_digits ds ->
+  parse_size_str (ds ++ 46 :: rest) = None /\ parse_interval_str (ds ++ 46 :: rest) = None.
+Proof.
+  intros Hd. split; [apply size_str_rejects_nonletter_tail|apply interval_str_rejects_nonletter_tail];
+    try exact Hd; try reflexivity; cbv; intros [H _]; apply H; reflexivity.
+Qed.
+
+Theorem rejects_negative rest :
+  parse_size_str (45 :: rest) = None /\ parse_interval_str (45 :: rest) = None.
+Proof.
+  split; [apply size_str_rejects_no_digit|apply interval_str_rejects_no_digit]; reflexivity.
+Qed.
